@@ -20,7 +20,7 @@ META = dict(
     technique="TLA+ model of backup->write->delete-backup with torn writes, crash and lock-free readers; TLC state graph replayed edge by edge on the real code through fs.DirectIOSim gates; real runs trace-validated by TLC",
     level="model_checking",
     level_text="TLC explores every interleaving of a writer (optionally a restarting second writer), 1-3 lock-free readers, one crash at every control point and every torn prefix (quarters) for every position of the slot relative to the tear, and checks ReadIsOldOrNew in every state. Every edge of the gate-level state graph is executed against the real registry code and every real step is checked by TLC against the model including raw block bytes, backup file state and lookup results, so model and code agree on everything the model covers.",
-    level_note="Bounds: 1 block, 1 slot rewritten, <=2 writers (second starts after the first ended), <=3 readers, 1 crash, tear granularity 1 KiB. A block write by a live process is taken to be atomic for other processes (single 4 KiB O_DIRECT pwrite); a crash leaves a prefix. Crashes are goroutine abandonment at a gate; a crash inside os.WriteFile of the backup is emulated by killing the writer at the next gate and truncating the file. Steps between two gates (checksum decision, backup creation) cannot be interleaved in the real code; model edges that need it are counted as not realisable.",
+    level_note="Bounds: 1 block (holding 5 other handles, or never written: first write into an all-zero block), 1 slot rewritten, <=2 writers (second starts after the first ended), <=3 readers, 1 crash, tear granularity 1 KiB; slot positions: inside each quarter and straddling the 1 KiB / 3 KiB boundaries. A block write by a live process is taken to be atomic for other processes (single 4 KiB O_DIRECT pwrite); a crash leaves a prefix. Crashes are goroutine abandonment at a gate; a crash inside os.WriteFile of the backup is emulated by killing the writer at the next gate and truncating the file. Steps between two gates (checksum decision, backup creation) cannot be interleaved in the real code; model edges that need it are counted as not realisable.",
     design_ref="C22",
 )
 
@@ -153,6 +153,7 @@ def run(c):
     ))
     c.assumptions += ["a 4 KiB block write of a live process is atomic for other processes; a crash leaves a 1 KiB-granular prefix",
                       "one block, one rewritten slot, at most 2 writers (sequential), 3 readers, 1 crash",
+                      "completed file writes are durable: process crash, not power loss (the code does not fsync the backup before the block write)",
                       "lookups use a read-write registry object (restore writes are possible) and a cold L2 cache"]
 
 
